@@ -58,6 +58,155 @@ func (s *slowStore) Save(id fix.StorageID, m simplefixgo.SendingMessage, seq int
 	return s.Storage.Save(id, m, seq)
 }
 
+// gateStore holds the first GetNextSeqNum call (made under the session's send lock) until the gate opens.
+type gateStore struct {
+	*memory.Storage
+	armed   int32
+	entered chan struct{}
+	gate    chan struct{}
+	// logonSeen is set by the application's Logon callback, which the session calls after it has taken the peer's
+	// identifiers over; afterLogon[n] says whether it was set when number n was asked for (under the send lock)
+	logonSeen  int32
+	mu         sync.Mutex
+	afterLogon map[int]bool
+}
+
+func (s *gateStore) GetNextSeqNum(id fix.StorageID) (int, error) {
+	seen := atomic.LoadInt32(&s.logonSeen) == 1
+	n, err := s.Storage.GetNextSeqNum(id)
+	s.mu.Lock()
+	s.afterLogon[n] = seen
+	s.mu.Unlock()
+	if atomic.CompareAndSwapInt32(&s.armed, 1, 2) {
+		close(s.entered)
+		<-s.gate
+	} else {
+		time.Sleep(time.Millisecond) // under the send lock: whoever is next finds the inbound path well past its take-over
+	}
+	return n, err
+}
+
+// sendsAcrossLogon: accepting side. One application Send sits in the counter store (under the send lock) while K more
+// Sends queue up behind it and the peer's Logon arrives; then the store lets go. The session takes the peer's
+// identifiers over before it numbers its Logon reply, and numbering order is wire order, so every message that
+// follows the Logon reply on the wire was numbered after the take-over and must carry the mirrored identifiers;
+// messages in front of it carry either none (numbered before the take-over) or the mirrored ones. Numbers are
+// consecutive from 1 whatever the order. Decided on the peer-side capture only; the sleeps only shape the schedule.
+func sendsAcrossLogon(c *vk.Ctx, i int) {
+	K := 1 + i%6
+	buf := []int{0, 1, 10}[(i/6)%3]
+	desc := fmt.Sprintf("acceptor sends-across-logon K=%d buf=%d logonQueuedFirst=%v GOMAXPROCS=%d #%d", K, buf, (i/18)%2 == 0, runtime.GOMAXPROCS(0), i)
+	replay := map[string]interface{}{"scenario": desc, "index": i, "seed": c.Seed}
+	st := &gateStore{Storage: memory.NewStorage(), armed: 1, entered: make(chan struct{}), gate: make(chan struct{}), afterLogon: map[int]bool{}}
+	f, err := rig.StartFull(rig.FullCfg{Role: rig.Acceptor, HeartBtInt: 30, BufSize: buf, Counter: st, Messages: st, Notify: true, Label: fmt.Sprintf("c05-across-%d", i),
+		OnLogon: func(*session.LogonSettings) error { atomic.StoreInt32(&st.logonSeen, 1); return nil }})
+	if err != nil {
+		c.Inconclusive("rig: " + err.Error())
+		return
+	}
+	defer f.Shutdown()
+	opened := false
+	defer func() {
+		if !opened {
+			close(st.gate)
+		}
+	}()
+	l, err := f.Connect("c05-across")
+	if err != nil {
+		c.Inconclusive("connect: " + err.Error())
+		return
+	}
+	var wg sync.WaitGroup
+	send := func(id string) {
+		wg.Add(1)
+		go func() {
+			defer wg.Done()
+			_ = l.S.Send(fixgen.CreateMarketDataRequestReject(id))
+		}()
+	}
+	send("across-x")
+	select {
+	case <-st.entered:
+	case <-time.After(5 * time.Second):
+		c.Inconclusive("the first Send never reached the counter store: " + desc)
+		return
+	}
+	logonFirst := (i/18)%2 == 0
+	if logonFirst {
+		// the inbound path queues on the send lock in front of the K sends (the lock is handed on in arrival order
+		// once somebody has waited a millisecond)
+		l.Conn.Feed(l.Peer.Logon(30, "0"))
+		time.Sleep(time.Duration(5+(i/3)%20) * time.Millisecond)
+	}
+	for k := 0; k < K; k++ {
+		send(fmt.Sprintf("across-y%d", k))
+	}
+	time.Sleep(time.Duration(5+i%20) * time.Millisecond) // the K sends are (most likely) waiting for the send lock now
+	if !logonFirst {
+		l.Conn.Feed(l.Peer.Logon(30, "0"))
+		time.Sleep(time.Duration(5+(i/3)%20) * time.Millisecond) // and so is the inbound path with the Logon
+	}
+	opened = true
+	close(st.gate)
+	want := K + 2
+	if !l.WaitFrames(8*time.Second, func(fs []rig.Frame) bool { return len(fs) >= want }) {
+		c.Inconclusive("fewer than K+2 messages on the wire after 8 s: " + desc)
+		return
+	}
+	wg.Wait()
+	frames, _ := l.Frames()
+	replyAt := -1
+	var order []string
+	for j, fr := range frames {
+		order = append(order, fr.Type+":"+fr.Seq+":"+fixref.GetS(fr.Fields, rig.TSender))
+		if fr.Type == "A" && replyAt < 0 {
+			replyAt = j
+		}
+	}
+	replay["wire(type:34:49)"] = strings.Join(order, " ")
+	if replyAt < 0 {
+		c.Inconclusive("no Logon reply on the wire: " + desc)
+		return
+	}
+	c.Eval(vk.Hash64([]byte("across"), []byte(fmt.Sprint(K, buf, replyAt))), true)
+	c.Count("sends_across_logon/scenarios", 1)
+	c.Count("sends_across_logon/messages_behind_the_logon_reply", int64(len(frames)-1-replyAt))
+	c.SetAdd("sends_across_logon/position_of_logon_reply", strconv.Itoa(replyAt))
+	for j, fr := range frames {
+		if err := fixref.CheckFrame(fixref.Std, fr.Raw); err != nil {
+			c.Violate("C05/invalid-frame-on-wire(C01)", fmt.Sprintf("%s: frame #%d: %v", desc, j, err), replay)
+			return
+		}
+		if fr.Seq != strconv.Itoa(j+1) {
+			c.Violate("C05/sequence-across-logon", fmt.Sprintf("%s: wire position %d carries 34=%s, want %d", desc, j, fr.Seq, j+1), replay)
+			return
+		}
+		sn, tg := fixref.GetS(fr.Fields, rig.TSender), fixref.GetS(fr.Fields, rig.TTarget)
+		mirrored := sn == rig.LibID && tg == rig.PeerID
+		st.mu.Lock()
+		numberedAfter := st.afterLogon[j+1]
+		st.mu.Unlock()
+		if numberedAfter {
+			c.Count("sends_across_logon/messages_numbered_after_the_logon_callback", 1)
+			if fr.Type != "A" {
+				c.Count("sends_across_logon/application_sends_numbered_after_the_logon_callback", 1)
+			}
+		}
+		if numberedAfter && !mirrored {
+			c.Violate("C05/wrong-comp-ids/numbered-after-the-logon-take-over", fmt.Sprintf("%s: frame %d (35=%s 34=%s) got its number after the application's Logon callback had run (the session takes the peer's identifiers over before it calls it), but carries 49=%q 56=%q, want 49=%s 56=%s", desc, j, fr.Type, fr.Seq, sn, tg, rig.LibID, rig.PeerID), replay)
+			return
+		}
+		if j >= replyAt && !mirrored {
+			c.Violate("C05/wrong-comp-ids/numbered-after-the-logon-take-over", fmt.Sprintf("%s: frame %d (35=%s 34=%s) follows the session's Logon reply (34=%s) on the wire, so it was numbered after the peer's identifiers were taken over, but carries 49=%q 56=%q, want 49=%s 56=%s", desc, j, fr.Type, fr.Seq, frames[replyAt].Seq, sn, tg, rig.LibID, rig.PeerID), replay)
+			return
+		}
+		if j < replyAt && !mirrored && !(sn == "" && tg == "") {
+			c.Violate("C05/wrong-comp-ids/before-the-logon-reply", fmt.Sprintf("%s: frame %d (35=%s 34=%s) carries 49=%q 56=%q: neither the unset identifiers of a session nobody has logged on to nor the mirrored ones", desc, j, fr.Type, fr.Seq, sn, tg), replay)
+			return
+		}
+	}
+}
+
 type sendRec struct {
 	g         int
 	call, ret int64
@@ -525,7 +674,7 @@ func main() {
 	// one GOMAXPROCS setting per shard
 	gmp := []int{16, 1, 2}[c.Shard%3]
 	runtime.GOMAXPROCS(gmp)
-	c.Rule("session i: either role on the full stack (real Initiator.Serve / Acceptor.ListenAndServe goroutines on a scripted net.Conn), logon by the scripted peer with N=1 (in half of the acceptor groups preceded by a Logon that is refused: the Reject is then message c0+1 and carries the mirrored identifiers; every third group of four: its Logon carries ResetSeqNumFlag=Y; numbering must then still be consecutive from the session's first message, from 1 if the session itself announces a reset), then G in {1,2,4,8,16} goroutines x M in 3..16 application sends (a fresh message object per send, or in every second pair of scenarios one object per goroutine sent M times) in bursts spread over 2.6 s (so that heartbeat and test-request timers expire in between), while the peer injects TestRequests and damaged messages (replies and rejects originate on the inbound goroutine) or stays silent; handler buffer {0,1,10}; the peer reads instantly or takes 100/300 us per message (so that bursts fill the buffer); a store decorator sleeps 0..2 ms after the counter increment, inside Save and in an outgoing handler; one GOMAXPROCS value per shard {16,1,2}; optional second session on the same counter store (in half of those the second session goes on sending for 2.6 s after the first connection was lost; in the other half a send of the first session that was held in an outgoing handler fails while the second session is sending). Oracle on the peer-side capture (reference splitter): 34 = c0+1,c0+2,... in wire order; 49/56; 52 parses, never goes backwards along the wire, is not later than the write, lies within [call,return] of its Send; porcupine counter model over the Send operations. distinct = (role, interleaving signature of source kinds on the wire, G, M, buffer); non-trivial = at least 2 source kinds on the wire")
+	c.Rule("session i: either role on the full stack (real Initiator.Serve / Acceptor.ListenAndServe goroutines on a scripted net.Conn), logon by the scripted peer with N=1 (in half of the acceptor groups preceded by a Logon that is refused: the Reject is then message c0+1 and carries the mirrored identifiers; every third group of four: its Logon carries ResetSeqNumFlag=Y; numbering must then still be consecutive from the session's first message, from 1 if the session itself announces a reset), then G in {1,2,4,8,16} goroutines x M in 3..16 application sends (a fresh message object per send, or in every second pair of scenarios one object per goroutine sent M times) in bursts spread over 2.6 s (so that heartbeat and test-request timers expire in between), while the peer injects TestRequests and damaged messages (replies and rejects originate on the inbound goroutine) or stays silent; handler buffer {0,1,10}; the peer reads instantly or takes 100/300 us per message (so that bursts fill the buffer); a store decorator sleeps 0..2 ms after the counter increment, inside Save and in an outgoing handler; one GOMAXPROCS value per shard {16,1,2}; optional second session on the same counter store (in half of those the second session goes on sending for 2.6 s after the first connection was lost; in the other half a send of the first session that was held in an outgoing handler fails while the second session is sending). Oracle on the peer-side capture (reference splitter): 34 = c0+1,c0+2,... in wire order; 49/56; 52 parses, never goes backwards along the wire, is not later than the write, lies within [call,return] of its Send; porcupine counter model over the Send operations. Plus sends-across-logon (accepting side): one application Send held inside the counter store under the send lock, K in 1..6 more Sends queued behind it, the Logon of the peer fed, the store released: numbers consecutive from 1, every message numbered after the application Logon callback ran (flag read in the counter store, under the send lock; the session takes the identifiers over before that callback) or standing behind the Logon reply of the session on the wire carries the mirrored identifiers; the Logon is queued on the send lock in front of the K sends or behind them; those in front of it none or the mirrored ones. distinct = (role, interleaving signature of source kinds on the wire, G, M, buffer); non-trivial = at least 2 source kinds on the wire")
 	c.Assume("precondition of the statement: no handler refuses, the stores do not fail; clocks: wall clock without steps during a 3 s scenario (2 ms tolerance)")
 	n := c.Pick(24, 500) // per shard
 	var wg sync.WaitGroup
@@ -537,6 +686,18 @@ func main() {
 			defer wg.Done()
 			defer func() { <-sem }()
 			scenario(c, i+c.Shard*100000)
+		}(i)
+	}
+	wg.Wait()
+	// accepting side: application sends queued on the send lock while the peer's Logon is taken over
+	nAcross := c.Pick(36, 360)
+	for i := 0; i < nAcross; i++ {
+		wg.Add(1)
+		sem <- struct{}{}
+		go func(i int) {
+			defer wg.Done()
+			defer func() { <-sem }()
+			sendsAcrossLogon(c, i+c.Shard*100000)
 		}(i)
 	}
 	wg.Wait()
